@@ -20,6 +20,8 @@ structure GInv (Ref : String → Prop) (st : St) : Prop where
   c2 : ∀ gb ∈ st.bGrp, ∀ ga ∈ st.aGrp, gb.onDev = ga.g.name → ga.needed = true
   c3 : ∀ gb ∈ st.bGrp, gb.onDev = "" ∨ gb.onDev = gb.newName ∨ gb.onDev ∈ st.aGrp.map (·.g.name)
   bne : ∀ gb ∈ st.bGrp, gb.g.name ≠ ""
+  c4 : ∀ ga ∈ st.aGrp, ga.needed = true → ∃ gb ∈ st.bGrp, gb.onDev = ga.g.name
+  c5 : ∀ gb ∈ st.bGrp, gb.onDev ≠ "" → Ref gb.g.name
 
 /-- The group table of the device while the group-member requests are executed. -/
 structure SimG (sh : Shared) (Ref : String → Prop) (st : St) (vg : Vsys) : Prop where
@@ -72,7 +74,7 @@ theorem claimSt_bIdx (st : St) (i gbi : Nat) (name x : String) : (claimSt st i g
   rw [modAt_map st.bGrp gbi (fun g => { g with needed := false, onDev := name }) (fun x => x.g.name) (fun _ => rfl)]
 
 theorem GInv.claim {Ref : String → Prop} {st : St} (h : GInv Ref st) (i gbi : Nat) (ga : AGrp) (gb : BGrp)
-    (hi : st.aGrp[i]? = some ga) (hb : st.bGrp[gbi]? = some gb) (h0 : gb.onDev = "") :
+    (hi : st.aGrp[i]? = some ga) (hb : st.bGrp[gbi]? = some gb) (h0 : gb.onDev = "") (hr : Ref gb.g.name) :
     GInv Ref (claimSt st i gbi ga.g.name) := by
   have hmono : GMono st (claimSt st i gbi ga.g.name) :=
     GMono.claim st i gbi ga.g.name (fun gb' hb' => by rw [hb] at hb'; cases hb'; exact h0)
@@ -93,7 +95,34 @@ theorem GInv.claim {Ref : String → Prop} {st : St} (h : GInv Ref st) (i gbi : 
     · rw [hb] at hy; cases hy; exact Or.inr e
   have hgbmem : gb ∈ st.bGrp := List.mem_of_getElem? hb
   refine ⟨by rw [hmono.anames]; exact h.anodup, by rw [hmono.bnames]; exact h.bnodup, ?_, ?_, ?_, ?_, ?_, ?_,
-    ?_, ?_, ?_, ?_, ?_⟩
+    ?_, ?_, ?_, ?_, ?_, ?_, ?_⟩
+  rotate_right
+  · -- c5
+    intro gb' hgb' hne'
+    rcases bmem gb' hgb' with h1 | h1
+    · exact h.c5 gb' h1 hne'
+    · rw [h1]; exact hr
+  rotate_right
+  · -- c4
+    intro ga' hga' hn'
+    have hnew : ({ gb with needed := false, onDev := ga.g.name } : BGrp) ∈ (claimSt st i gbi ga.g.name).bGrp := by
+      apply List.mem_of_getElem? (i := gbi)
+      simp [claimSt, modAt_getElem?, hb]
+    rcases amem ga' hga' with h1 | h1
+    · obtain ⟨gb0, hgb0, e0⟩ := h.c4 ga' h1 hn'
+      -- the old witness is still there (it is not the entry `gbi`, whose name on the device was empty)
+      obtain ⟨j, hj⟩ := List.getElem?_of_mem hgb0
+      have hjne : j ≠ gbi := by
+        intro e
+        subst e
+        rw [hb] at hj; cases hj
+        rw [h0] at e0
+        exact h.ane ga' h1 e0.symm
+      refine ⟨gb0, ?_, e0⟩
+      apply List.mem_of_getElem? (i := j)
+      simp only [claimSt, modAt_getElem?, hjne, if_false]
+      exact hj
+    · rw [h1]; exact ⟨_, hnew, rfl⟩
   · intro ga' hga'
     rcases amem ga' hga' with h1 | h1
     · exact h.ane ga' h1
